@@ -627,10 +627,15 @@ package flamego
 //@   props C16 C05
 //@   modifies nothing
 //@   ensures result != nil
+//@   assert[C16] before parseStaticOptions#0: len(opts) > 0 ==> opt.Directory == opts[0].Directory && opt.Prefix == opts[0].Prefix && opt.Index == opts[0].Index && opt.FileSystem == opts[0].FileSystem
+//@   assert[C16] before parseStaticOptions#0: len(opts) == 0 ==> opt.Directory == "" && opt.Prefix == "" && opt.Index == "" && opt.FileSystem == nil
 //@ func Renderer
 //@   props C17 C05
 //@   modifies nothing
 //@   ensures result != nil
+// the options that get normalised and captured are the first ones given (the zero options when none are given)
+//@   assert[C17] before parseRenderOptions#0: len(opts) > 0 ==> opt.Charset == opts[0].Charset && opt.JSONIndent == opts[0].JSONIndent && opt.XMLIndent == opts[0].XMLIndent
+//@   assert[C17] before parseRenderOptions#0: len(opts) == 0 ==> opt.Charset == "" && opt.JSONIndent == "" && opt.XMLIndent == ""
 
 // ---------------------------------------------------------------------------
 // C14 Return values -> response (fixed table)
@@ -764,8 +769,12 @@ package flamego
 //@ func Recovery$2
 //@   props C15 C05
 //@   assumes len(slash) >= 1 && len(dot) >= 1
+// (the stack walk ends: it stops at the first frame the runtime does not answer for)
 //@ func Recovery$3
 //@   props C15 C05
+//@   requires skip >= 0
+//@   loop 0 invariant i >= skip
+//@   loop 0 decreases callDepth() - i
 
 // The handler: whatever c.Next() does (including a panic at any depth), the handler itself returns normally.
 //@ iface Context.Next(this)
